@@ -602,5 +602,22 @@ func ruleIndent(c *Ctx) {
 			bad = "Indent does not follow the marshal"
 		}
 		add(key, indent, bad == "", "Indent(&buf, data, \"\", indent); return buf.Bytes(), nil", bad)
+		// Indent can fail on a text the encoder produced (nesting beyond the scanner's limit):
+		// its error is tested and a failure returns no document
+		key = "indent path: a failure of Indent is reported, not returned as an empty document"
+		if ok, why := b.successDominates(indent, func() ssa.Instruction {
+			for _, r := range liveReturns(fn) {
+				if call, ok := retVal(r, 0).(*ssa.Call); ok {
+					if f := call.Call.StaticCallee(); f != nil && stdName(f) == "bytes.(*Buffer).Bytes" && call.Call.Args[0] == buf {
+						return r
+					}
+				}
+			}
+			return indent
+		}()); ok {
+			add(key, indent, true, "the return of the buffer lies behind err == nil of Indent ("+why+")", "")
+		} else {
+			add(key, indent, false, "", "the error of Indent is dropped ("+why+"): when the patched document nests deeper than the scanner accepts, Indent fails after writing nothing and ApplyIndent returns an empty text with a nil error")
+		}
 	}
 }
